@@ -1,9 +1,12 @@
 #!/bin/sh
-# Build the framework offline from files on disk: the mirfacts driver (nightly, rustc_private, zero deps).
+# Build the framework offline from files on disk:
+#  - driver/  : the mirfacts rustc_private driver (nightly, zero dependencies)
+#  - expand/  : the syn-based macro-expansion analyser (syn/quote/proc-macro2 from the local cargo cache)
+# and warm the dependency metadata of the quick configuration so that the first check is fast (optional).
 set -e
 cd "$(dirname "$0")"
 export CARGO_NET_OFFLINE=true
 (cd driver && cargo build --release --offline)
-# warm the dependency metadata of the analysed configuration so the first check is fast (optional)
+(cd expand && cargo build --release --offline)
 python3 lib/extract.py K1 >/dev/null
 echo "setup ok"
